@@ -7,7 +7,7 @@ set -u
 ROOT=$(cd "$(dirname "$0")/.." && pwd)
 PATCH=$(realpath "$1"); shift
 TIER=${1:-quick}; [ $# -gt 0 ] && shift
-IDS=("$@"); [ ${#IDS[@]} -eq 0 ] && IDS=($(seq -f 'C%02g' 1 17))
+IDS=("$@")
 export GOFLAGS=-mod=mod GOPROXY=off GOSUMDB=off GOTOOLCHAIN=local
 WT=$(mktemp -d /tmp/mutwt.XXXXXX)
 cleanup() { git -C /repo worktree remove --force "$WT/r" >/dev/null 2>&1; rm -rf "$WT"; }
@@ -20,6 +20,18 @@ if (cd "$WT/r" && go test -vet=off -count=1 ./...) >/dev/null 2>&1; then SUITE=p
 cd "$ROOT"
 CAUGHT=""; MISSED=""; OTHER=""
 export VERIF_REPO="$WT/r" VERIF_ROOT_EVIDENCE_SKIP=1
+if [ ${#IDS[@]} -eq 0 ]; then
+  # all 17: one build, every property (./check ALL)
+  out=$(VERIF_EVIDENCE_DIR="$WT/evidence" VERIF_REPLAY_DIR="$WT/replays" ./check ALL "$TIER" 2>&1)
+  while read -r id rc; do
+    case $rc in
+      0) MISSED="$MISSED $id";;
+      1) CAUGHT="$CAUGHT $id";;
+      *) OTHER="$OTHER $id(rc=$rc)";;
+    esac
+  done < <(echo "$out" | sed -n 's/^RESULT property=\(C[0-9]*\) rc=\([0-9]*\)$/\1 \2/p')
+  if [ -z "$CAUGHT$MISSED$OTHER" ]; then OTHER=" ALL(build-or-driver-failure)"; echo "$out" | tail -5 >&2; fi
+else
 for id in "${IDS[@]}"; do
   out=$(VERIF_EVIDENCE_DIR="$WT/evidence" VERIF_REPLAY_DIR="$WT/replays" ./check "$id" "$TIER" 2>&1); rc=$?
   case $rc in
@@ -28,4 +40,5 @@ for id in "${IDS[@]}"; do
     *) OTHER="$OTHER $id(rc=$rc)"; echo "$out" | tail -5 >&2;;
   esac
 done
+fi
 echo "MUTANT $NAME suite=$SUITE caught:[${CAUGHT# }] silent:[${MISSED# }] inconclusive:[${OTHER# }]"
